@@ -411,6 +411,48 @@ fn op_json(h: &[Op]) -> Value {
     serde_json::to_value(h).unwrap()
 }
 
+/// One scripted history on a 70 000-byte archive whose annotations sit beyond address 65 535
+/// (relocation arithmetic in a narrower integer would show here and nowhere else).
+fn large_script(o: &mut Outcome) -> (u64, Value) {
+    let mut c = Content::new(End::Little);
+    c.data = (0..70_000usize).map(|i| (i as u8).wrapping_mul(13).wrapping_add(1)).collect();
+    c.strings.insert(65_536, "far".into());
+    c.pointers.insert(65_540, 65_548);
+    c.cstrings.insert(65_544, "pool".into());
+    c.pointers.insert(4, 69_996);
+    c.labels.insert(65_536, vec!["A".into(), "B".into()]);
+    c.labels.insert(65_552, vec!["C".into()]);
+    c.labels.insert(70_000, vec!["End".into()]);
+    let script = vec![
+        Op::Allocate(0, 4, false),
+        Op::Allocate(65_540, 8, true),
+        Op::Deallocate(256, 256, false),
+        Op::Allocate(65_292, 4, false),
+        Op::Deallocate(65_296, 4, true),
+        Op::WriterAllocate(69_760, 4, true),
+        Op::AllocateAtEnd(4),
+        Op::Deallocate(69_700, 64, false),
+        Op::Truncate(65_800),
+        Op::Truncate(65_288),
+    ];
+    let sys = Sys { inits: vec![c.clone()], s_max: usize::MAX, full_depth: 0 };
+    let mut st = St { init: 0, model: c };
+    let mut done = 0u64;
+    for k in 0..script.len() {
+        match sys.transition(&st, &script[..k], &script[k]) {
+            Ok((n, _)) => {
+                st = n;
+                done += 1;
+            }
+            Err((sig, summary, _)) => {
+                o.violate(format!("large:{}", sig), format!("[70 000-byte archive, step {}] {}", k, summary.chars().take(600).collect::<String>()), json!({"large_script_step": k}));
+                break;
+            }
+        }
+    }
+    (done, serde_json::to_value(&script).unwrap())
+}
+
 fn explore(ctx: &Ctx) -> Outcome {
     let (max_depth, full_depth, s_max) = bounds(ctx.tier);
     let sys = Sys { inits: init_states(ctx.tier), s_max, full_depth };
@@ -449,6 +491,10 @@ fn explore(ctx: &Ctx) -> Outcome {
             o.warn(format!("witness never reached: {}", name));
         }
     }
+    let (steps, script) = large_script(&mut o);
+    cov.transitions += steps;
+    cov.traces_validated_against_impl += steps;
+    cov.extra.insert("large_archive_script".into(), json!({"bytes": 70000, "steps_conforming": steps, "script": script}));
     o.coverage = cov;
     for v in rep.violations {
         let init = 0; // histories start from the init state recorded in the case
@@ -464,6 +510,11 @@ fn explore(ctx: &Ctx) -> Outcome {
 }
 
 fn replay(ctx: &Ctx, case: &Value) -> Vec<Violation> {
+    if case.get("large_script_step").is_some() {
+        let mut o = Outcome::default();
+        large_script(&mut o);
+        return o.violations;
+    }
     let hist: Vec<Op> = serde_json::from_value(case["history"].clone()).unwrap_or_default();
     if hist.is_empty() {
         return vec![];
